@@ -26,7 +26,7 @@ def tag_of(data):
 
 VARIANTS = ['upgrade_ok', 'upgrade_fail_frame', 'upgrade_fail_close', 'polling_only', 'ws_only',
             'two_sessions', 'close_during', 'upgrade_no_pending_poll', 'backlog_polling', 'backlog_ws',
-            'backlog_upgrade', 'overlapping_opens', 'upgrade_fail_accept', 'backlog_ping', 'ws_send_fault', 'upgraded_send_fault', 'backlog_closing', 'two_readers']
+            'backlog_upgrade', 'overlapping_opens', 'upgrade_fail_accept', 'backlog_ping', 'ws_send_fault', 'upgraded_send_fault', 'backlog_closing', 'two_readers', 'ws_backpressure', 'upgraded_backpressure']
 
 
 class _SlowConnect:
@@ -177,7 +177,7 @@ class Delivery(core.Scenario):
         self.fail_step = None
         self.closed_by_client = {}
         A = self.A = None
-        if variant in ('ws_only', 'backlog_ws', 'ws_send_fault'):
+        if variant in ('ws_only', 'backlog_ws', 'ws_send_fault', 'ws_backpressure'):
             h = peer.ws_open(w)
             A = [e[1] for e in w.events if e[0] == 'connect'][-1]
             self.ws[A] = h
@@ -280,6 +280,29 @@ class Delivery(core.Scenario):
                 c = sc.world.call_seq('send', [(A, PAYLOADS[i]) for i in range(k)])
                 sc.sends[:] = [(t, s_, c, st) for (t, s_, _, st) in sc.sends]
             app = [core.Action('burst%d' % k, burst_f), send(A, k + 1)]
+            client = []
+        elif variant in ('ws_backpressure', 'upgraded_backpressure'):
+            # the peer stops reading: a batch of k messages is being flushed (the first write is parked inside the socket) when
+            # one more message is sent; then the peer reads again. Everything arrives, in sending order.
+            if variant == 'upgraded_backpressure':
+                # the burst is queued while the upgrade handshake is between probe and UPGRADE; the writer takes it as one batch
+                self.ws[A] = peer.ws_upgrade(w, A)
+                w.ws_send(self.ws[A], '2probe')
+                w.run()
+            hws = self.ws[A]
+            hws.stall_send = 1          # the next write parks, later ones find room in the socket buffer
+
+            def burst_b(sc):
+                for i in range(k):
+                    sc.sends.append((tag_of(PAYLOADS[i]), A, None, sc.world.nstep))
+                c = sc.world.call_seq('send', [(A, PAYLOADS[i]) for i in range(k)])
+                sc.sends[:] = [(t, s_, c, st) for (t, s_, _, st) in sc.sends]
+            app = [core.Action('burst%d' % k, burst_b)]
+            if variant == 'upgraded_backpressure':
+                app.append(core.Action('upgrade', lambda sc: sc.world.ws_send(hws, '5'), lambda sc: len(sc.sends) >= k))
+            app += [core.Action(send(A, k).name, send(A, k).fire, lambda sc: getattr(hws, 'stalled', 0) > 0),
+                    core.Action('peer_reads_again', lambda sc: sc.world.ws_release_send(hws),
+                                lambda sc: getattr(hws, 'stalled', 0) > 0 and len(sc.sends) > k)]
             client = []
         elif variant == 'polling_only':
             client = [poll(A), poll(A, 'poll2'), poll(A, 'poll3')]
@@ -440,6 +463,8 @@ def param_list(ctx):
                 ks = (3,)
             if v == 'two_readers':
                 ks = (3, 4)
+            if v.endswith('backpressure'):
+                ks = (2, 3)
             if v.startswith('backlog'):
                 ks = (17, 20, 40)
             if v == 'backlog_closing':
